@@ -22,7 +22,7 @@ theorem good_loopIter {E : Env} (hincr : Incr E.nx) {s : St} (h : Good E s) (ski
 
 theorem good_act {E : Env} (hincr : Incr E.nx) {s : St} (h : Good E s) (a : Act) : Good E (act E s a) := by
   cases a with
-  | sched id sc off last => exact good_schedule h id sc off last
+  | sched id sc off last frac => exact good_schedule h id sc off last frac
   | rel id => exact good_release h id
   | adv d => exact good_adv h d
   | fire => exact good_kick h
@@ -107,9 +107,9 @@ theorem settle_acts (E : Env) (skip : List Nat) (s : St) : ∃ as, settle E skip
 
 theorem step_acts (E : Env) (skip : List Nat) (s : St) (op : Op) : ∃ as, step E skip s op = runActs E s as := by
   cases op with
-  | sched id sc off last =>
-    obtain ⟨as, h⟩ := settle_acts E skip (schedule E s id sc off last)
-    exact ⟨Act.sched id sc off last :: as, by simp only [step, h]; rfl⟩
+  | sched id sc off last frac =>
+    obtain ⟨as, h⟩ := settle_acts E skip (schedule E s id sc off last frac)
+    exact ⟨Act.sched id sc off last frac :: as, by simp only [step, h]; rfl⟩
   | rel id =>
     obtain ⟨as, h⟩ := settle_acts E skip (release s id)
     exact ⟨Act.rel id :: as, by simp only [step, h]; rfl⟩
